@@ -36,6 +36,18 @@ def step (d : DState) (ws : List String) : DState × String :=
   | ["iaqi", l, b] => match unhex l, unhex b with
     | some l, some b => (d, b2s (internalAndQi (bytesToAddress b l)))
     | _, _ => (d, "bad-op")
+  -- filter <slice hex> <nodeCtx> <order> <to:type>…  →  indices kept
+  | "filter" :: sl :: ctx :: ord :: items => match unhex sl, ctx.toNat?, ord.toNat? with
+    | some sl, some ctx, some ord =>
+      let parsed := items.mapM fun it => match it.splitOn ":" with
+        | [a, t] => match unhex a, t.toNat? with | some a, some t => some (a, t) | _, _ => none
+        | _ => none
+      match parsed with
+      | some l =>
+        let kept := (l.zipIdx.filter fun (e, _) => keepForSub sl ctx ord e).map (·.2)
+        (d, String.intercalate "," (kept.map toString))
+      | none => (d, "bad-op")
+    | _, _, _ => (d, "bad-op")
   | ["zone", b] => match unhex b with
     | some b => (d, hex (zoneOf b) ++ " " ++ (if isQi b then "qi" else "quai"))
     | _ => (d, "bad-op")
